@@ -234,6 +234,7 @@ def bounded(chk):
     all_shapes = list(shapes(max_leaves))
     cells = [("ios", sh, chk.tier == "quick" and str(sh).count("'L'") > 3) for sh in all_shapes]
     cells += [("nxos", sh, chk.tier == "quick") for sh in all_shapes]
+    cells += [("asa", sh, True) for sh in all_shapes[::3]]        # the third platform the classes accept (same numbering rules)
     evals = distinct = viol = 0
     samples = []
     for ev, di, fails, smp in pmap(_one_shape, cells):
